@@ -41,12 +41,17 @@ def prepare_matrix(work, tag, families=None, cfg=None, only=None):
     for fam, entries in fams.items():
         if only:
             entries = [e for e in entries if any(o in e.name for o in only)]
+        if cfg.get("linear_gas_solver") is False:
+            # the equation-based gas solver rejects loops that use builtins
+            # (SolvingGasEquationFailed); those entries are analysed with the linear solver only
+            entries = [e for e in entries if "lin_only" not in getattr(e, "tags", ())]
         if not entries:
             continue
         chunk = 60
         for ci in range(0, len(entries), chunk):
             part = entries[ci:ci + chunk]
-            stem = f"m_{fam}_{ci // chunk}"
+            import re as _re
+            stem = f"m_{fam}_{ci // chunk}_" + _re.sub(r"[^a-zA-Z0-9]", "_", tag)
             src = os.path.join(work, stem + ".cairo")
             with open(src, "w") as f:
                 from matrix_extra import EXTRA_HEADERS
@@ -258,6 +263,17 @@ def generic(args, prop, worker, cfgs, confirm, level="model_checking", extra_tas
                 continue
             nw += 1
             ok, msg, resp = validate_witness(rp, w, fcost)
+            if prop == "C04" and resp.get("ok"):
+                # the inequality of the property evaluated on the numbers of the REAL run (this
+                # is what catches a wrong price table inside the runner itself)
+                bad, payload = confirm_c04(rp, w, fcost, r)
+                if bad:
+                    payload.update({"property": prop, "source": src, "config": cfg, "witness": w})
+                    if known(prop, r["name"], kf):
+                        print(f"KNOWN-FINDING: property={prop} {r['name']} real run undercharged")
+                    else:
+                        violations.append((r["name"], save_replay(prop, r["name"], payload)))
+                    continue
             if ok:
                 validated += 1
             elif resp.get("kind") == "panic" and "results_data.len()" in str(resp.get("error")):
@@ -497,7 +513,8 @@ GAS_CFGS_FULL = GAS_CFGS_QUICK + [
 
 
 # quick tiers leave out the families another property's quick tier already analyses
-CORE_FAMS = ["arith", "cast", "felt", "bool", "wide", "bounded", "plumb", "gas", "hash", "spec"]
+CORE_FAMS = ["arith", "cast", "felt", "bool", "wide", "bounded", "plumb", "gas", "hash", "spec",
+             "bigap"]
 
 
 def fams_for(args, quick):
